@@ -110,7 +110,7 @@ func C02(r *eng.Run) {
 	if r.Thorough() {
 		nlead = 3
 	}
-	leads := append(LeadSweep(nlead), WordShapes()...)
+	leads := append(append(LeadSweep(nlead), WordShapes()...), LimitShapes()...)
 	smx := SmallShapes()
 	r.Bounds["lead_prefix_digits"] = nlead
 	r.Par(len(leads), func(w *eng.W, i int) {
@@ -228,6 +228,42 @@ func C02(r *eng.Run) {
 		cl.flush(w)
 	})
 	r.Phase("A4 range windows", t0, nil)
+
+	// A4b: the largest-value edge: short coefficients that scale to just below / above Cmax, with the exponent sum
+	// (difference) j above the maximum so that exactly j up-scalings are needed
+	t0 = time.Now()
+	cp := CmaxPrefixes()
+	r.Par(len(cp), func(w *eng.W, i int) {
+		cl := &rcells{}
+		c := cp[i]
+		for j := 0; j <= 36; j++ {
+			for _, m := range []int{0, 1, 5, 17} { // cohort of the unit operand: 10^m
+				if m > j+2 {
+					continue
+				}
+				u := ref.Pow10(m)
+				// Mul: qx + qy + m = MaxQ + j
+				for _, qx := range []int{ref.MaxQ, ref.MaxQ - 3, 3000} {
+					qy := ref.MaxQ + j - m - qx
+					if qy < ref.MinQ || qy > ref.MaxQ {
+						continue
+					}
+					mulQuoPair(w, cl, c, qx, u, qy, []arithOp{opMul})
+					mulQuoPair(w, cl, u, qy, c, qx, []arithOp{opMul})
+				}
+				// Quo: qx - qy - m = MaxQ + j
+				for _, qx := range []int{ref.MaxQ, 100} {
+					qy := qx - m - ref.MaxQ - j
+					if qy < ref.MinQ || qy > ref.MaxQ {
+						continue
+					}
+					mulQuoPair(w, cl, c, qx, u, qy, []arithOp{opQuo})
+				}
+			}
+		}
+		cl.flush(w)
+	})
+	r.Phase("A4b largest-value edge", t0, nil)
 
 	// A5: zeros and division by zero, all zero exponents of the alphabet
 	t0 = time.Now()
